@@ -143,8 +143,9 @@ def range_case(spec, workdir):
                     leaves = {}
                     for x, y, kind in spec["leaves"]:
                         arr = leaf_array(spec, x, y, kind)
-                        leaves[(x, y)] = arr
                         pio.write_image(Pos(depth, x, y), Image.from_array(arr.copy(), default_format="fits"))
+                        if not np.all(M.undef_mask(spec["mode"], arr)):
+                            leaves[(x, y)] = arr     # an all-undefined (all-NaN / all-zero) leaf is not a tile
 
                     def beneath(n, x, y):
                         k = depth - n
